@@ -4,10 +4,15 @@
 # against it (VERIF_REPO), revert. One line per mutant goes to stdout and mutants/MATRIX.txt:
 #   <name> tests=<pass|FAIL> fired=[checks with exit 1] broken=[checks with exit 2]
 # benign-* variants must fire nothing; every other patch must fire at least one check.
+# With SEEDED=1 the patches are seeded/<pattern>*/patch.diff (the repository suite is not re-run: each was
+# confirmed when it was stored) and the lines go to seeded/MATRIX.txt.
+# VERIF_WALL_CAP_S (default here: 600) bounds a check that a change makes hang; it is then listed as broken.
 # The scratch worktree and its build output are removed at the end.
 cd /verif
 PAT="${1:-}"
 OUT=/verif/mutants/MATRIX.txt
+[ -n "${SEEDED:-}" ] && OUT=/verif/seeded/MATRIX.txt
+export VERIF_WALL_CAP_S="${VERIF_WALL_CAP_S:-600}"
 SCR=/tmp/cbv-selftest
 [ -z "$PAT" ] && : > $OUT
 ALL="C01 C02 C03 C04 C05 C06 C07 C08 C09 C10 C11 C12 C13 C14 C15 C16 C17 C18 C19"
@@ -20,10 +25,11 @@ cleanup() {
   rm -rf /verif/target/hooks$TAG /verif/target/plain$TAG /verif/harness$TAG /verif/target/build$TAG.log* /verif/target/selftest
 }
 trap cleanup EXIT
-for P in mutants/${PAT}*.patch; do
-  name=$(basename $P .patch)
+if [ -n "${SEEDED:-}" ]; then LIST=$(ls seeded/${PAT}*/patch.diff); else LIST=$(ls mutants/${PAT}*.patch); fi
+for P in $LIST; do
+  if [ -n "${SEEDED:-}" ]; then name=$(basename $(dirname $P)); else name=$(basename $P .patch); fi
   ( cd $SCR && git checkout -q -- . && git apply /verif/$P ) || { echo "$name cannot-apply" | tee -a $OUT; continue; }
-  if ( cd $SCR && CARGO_TARGET_DIR=/verif/target/selftest cargo test --workspace --no-fail-fast --offline >/verif/target/selftest.log 2>&1 ); then t=pass; else t=FAIL; fi
+  if [ -n "${SEEDED:-}" ]; then t=confirmed-earlier; elif ( cd $SCR && CARGO_TARGET_DIR=/verif/target/selftest cargo test --workspace --no-fail-fast --offline >/verif/target/selftest.log 2>&1 ); then t=pass; else t=FAIL; fi
   fired=""; broken=""
   for c in ${CHECKS:-$ALL}; do
     VERIF_EVIDENCE_DIR=/tmp/cbv-selftest-evidence ./check $c --tier quick >/verif/target/selftest-check.log 2>&1; rc=$?
